@@ -29,12 +29,19 @@ PROPS = {
                      "transfers start at a multiple of nt_size and end inside the element (outside: see REPORT, C misbehaves)"],
     ),
     "C09": dict(
-        lean_props=["H4.Props.C09"],
+        lean_props=["H4.Props.C09", "H4.Props.C09Region"],
         engines=[
             E("il", "e_il.c", model="il", quick=dict(cases=400), thorough=dict(cases=5000, seeds=4)),
+            E("gr", "e_gr.c", model="gr", quick=dict(cases=600, chunk=40), thorough=dict(cases=8000, seeds=4, chunk=100)),
         ],
-        trusted_base=["GRIil_convert pointer offsets assumed < 2^31 (int32 casts of the line/pixel increments not modelled)"],
-        assumptions=["caller supplies distinct, sufficiently large in/out buffers (the C routine documents no in-place support)"],
+        trusted_base=["GRIil_convert pointer offsets assumed < 2^31 (int32 casts of the line/pixel increments not modelled)",
+                      "region part: the raster data element is a byte array with Hseek/Hwrite/Hread (C01); compression coders, the HBconvert buffer and the "
+                      "chunk layer (C04/C05) are not modelled - a compressed or chunked image is the same logical element; checked on the implementation "
+                      "by the shadow-array oracle. RIG/Vgroup metadata encoding (GRIupdatemeta/GRIupdateRIG/GRIupdateRI) is modelled only by what survives reopen",
+                      "DFKconvert modelled as per-element copy / byte reversal from the generated table (C06)"],
+        assumptions=["caller supplies distinct, sufficiently large in/out buffers (the C routine documents no in-place support)",
+                     "region part: little-endian host; pixel_mem_size = pixel_disk_size for every number type (generated sizes); no int32 overflow in xdim*ydim*pixel_size",
+                     "compressed (non-chunked) images are tied on the supported path only: one first write, close, then reads (other paths: known findings gr-comp:*)"],
     ),
     "C07": dict(
         lean_props=["H4.Props.C07"],
